@@ -4,6 +4,8 @@ import RoaringModel.Lemmas.TreemapQuery
 import RoaringModel.Lemmas.TreemapRemoveRange
 import RoaringModel.Lemmas.TreemapInsertRange
 import RoaringModel.Lemmas.TreemapAppend
+import RoaringModel.Lemmas.TreemapCanonical
+import RoaringModel.Lemmas.TreemapFull
 import RoaringModel.Step64
 /-!
 # C10 — RoaringTreemap is an exact set of u64 under mutation and query (property theorems)
@@ -18,10 +20,10 @@ Every theorem is stated against `Spec` on strictly ascending lists of `u64` (`ma
   theorems **without** suffix are unconditional: `C10_insert`, `C10_remove`, `C10_contains`, `C10_extend`,
   `C10_push`, `C10_pushUnchecked`, `C10_insertRange` (spans over 1, 2 and ≥ 3 partitions, whole middle partitions
   = `RoaringBitmap::full()`), `C10_removeRange`, `C10_append` / `C10_fromSortedIter`, `C10_fromBitmaps`, `C10_len`,
-  `C10_isEmpty`, `C10_min`, `C10_max`, `C10_rank`, `C10_select`, `C10_new_clear`, `C10_elems`, and the history
+  `C10_isEmpty`, `C10_isFull` / `C10_isFull_iff` (+ `C10_full` for `RoaringTreemap::full()`), `C10_eq_iff` (the
+  derived `==`), `C10_min`, `C10_max`, `C10_rank`, `C10_select`, `C10_new_clear`, `C10_elems`, and the history
   induction `C10_step` / `C10_run` / `C10_history` over the alphabet `Op64` (Step64.lean: all of the above
   mutators and queries): no panic in either build configuration, every returned value is the abstract one.
-* Not proved (decided by the correspondence check only): `is_full` and the derived `==`.
 
 What is proved at this level is the partition directory: `split`/`join` arithmetic at 2^32, the sorted
 association list, creation / replacement / removal of partitions, `elems` = concatenation of the partitions
@@ -567,6 +569,60 @@ theorem C10_fromBitmaps (items : List (Nat × Bitmap)) (h : ∀ p ∈ items, p.1
     elems (Treemap.fromBitmaps items) = Spec.fromBitmaps (items.map (fun p => (p.1, Bitmap.elems p.2))) :=
   fromBitmaps_spec kernel32 items h
 
+/-! ### `==` and `is_full` -/
+
+/-- **`==` is extensional.** The derived `PartialEq` (`BTreeMap` equality: same number of partitions, pairwise
+    equal keys and `RoaringBitmap`s — `Treemap.eq`, with `Bitmap.eq` the mirrored 32-bit `==`) of two well-formed
+    treemaps holds exactly when they contain the same integers.  (From the canonical-form theorem
+    `Treemap.canonical`, Lemmas/TreemapCanonical.lean, over the 32-bit `Bitmap.canonical` / `Bitmap.eq_iff` of C04.) -/
+theorem C10_eq_iff (a b : Treemap) (ha : TWF a) (hb : TWF b) :
+    Treemap.eq a b = true ↔ elems a = elems b := Treemap.eq_iff_elems a b ha hb
+
+/-- `==` is moreover structural equality of the model values (no hypothesis) -/
+theorem C10_eq_iff_eq (a b : Treemap) : Treemap.eq a b = true ↔ a = b := Treemap.eq_iff a b
+
+/-- `is_full` answers "all 2^64 values are present" (as a cardinality, the form the driver's SPEC column uses). -/
+theorem C10_isFull (t : Treemap) (hw : TWF t) : Treemap.isFull t = Spec.isFull u64Max (elems t) :=
+  Treemap.isFull_spec t hw
+
+/-- **`is_full`, characterised exactly** for every well-formed treemap.  What the code tests — exactly 2^32
+    partitions, every one of them `RoaringBitmap::is_full` — is equivalent to: the element list is all of
+    `0 ..= u64::MAX` (2^64 entries; every `u64` is a member), and to: `contains(v)` for every `u64`. -/
+theorem C10_isFull_iff (t : Treemap) (hw : TWF t) :
+    (Treemap.isFull t = true ↔ t.length = 4294967296 ∧ ∀ p ∈ t, Bitmap.isFull p.2 = true) ∧
+    (Treemap.isFull t = true ↔ (elems t).length = 18446744073709551616) ∧
+    (Treemap.isFull t = true ↔ ∀ v, v < 18446744073709551616 → v ∈ elems t) ∧
+    (Treemap.isFull t = true ↔ ∀ v, v < 18446744073709551616 → Treemap.contains t v = true) := by
+  refine ⟨by simp [Treemap.isFull], ?_, Treemap.isFull_iff_forall_mem t hw, ?_⟩
+  · rw [C10_isFull t hw]; simp [Spec.isFull, u64Max]
+  · rw [Treemap.isFull_iff_forall_mem t hw]
+    constructor
+    · intro h v hv
+      rw [C10_contains t hw v hv]; simpa [Spec.contains] using h v hv
+    · intro h v hv
+      have := h v hv
+      rw [C10_contains t hw v hv] at this; simpa [Spec.contains] using this
+
+/-- `RoaringTreemap::full()` (2^32 partitions `RoaringBitmap::full()`) is well-formed, `is_full`, and contains
+    every `u64`; conversely, by `C10_eq_iff`, every well-formed `is_full` treemap `==` it. -/
+theorem C10_full :
+    TWF Treemap.full ∧ Treemap.isFull Treemap.full = true ∧
+    (∀ v, v < 18446744073709551616 → Treemap.contains Treemap.full v = true) ∧
+    ∀ t, TWF t → Treemap.isFull t = true → Treemap.eq t Treemap.full = true := by
+  refine ⟨Treemap.full_TWF, Treemap.isFull_full, (C10_isFull_iff _ Treemap.full_TWF).2.2.2.mp Treemap.isFull_full, ?_⟩
+  intro t hw hf
+  rw [C10_eq_iff t _ hw Treemap.full_TWF]
+  apply TL.sorted_ext (sorted_elems elems32 hw) (sorted_elems elems32 Treemap.full_TWF)
+  intro x
+  have h1 := (Treemap.isFull_iff_forall_mem t hw).mp hf
+  have h2 := (Treemap.isFull_iff_forall_mem _ Treemap.full_TWF).mp Treemap.isFull_full
+  exact ⟨fun hx => h2 x (elems_lt elems32 hw x hx), fun hx => h1 x (elems_lt elems32 Treemap.full_TWF x hx)⟩
+
+/-- non-vacuity: the three-partition example below is not full, and `==` itself / differs from a smaller set -/
+example : Treemap.isFull (Treemap.fromIter [1, 5, 8589934595]) = false ∧
+    Treemap.eq (Treemap.fromIter [1, 8589934595]) (Treemap.fromIter [8589934595, 1]) = true ∧
+    Treemap.eq (Treemap.fromIter [1, 8589934595]) (Treemap.fromIter [1]) = false := by decide
+
 /-! ### histories (MODEL `Treemap.step` / `Treemap.run`, SPEC `Spec.step64` / `Spec.run64`: Step64.lean) -/
 
 /-- **One step.** Every call on a well-formed value, in either build configuration, succeeds (no panic),
@@ -605,6 +661,7 @@ theorem C10_step (dbg : Bool) (t : Treemap) (h : TWF t) (op : Op64) (hv : op.Val
   | max => exact ⟨t, by simp only [Treemap.step, Spec.step64, C10_max t h], h, rfl⟩
   | rank v => exact ⟨t, by simp only [Treemap.step, Spec.step64, C10_rank t h v hv], h, rfl⟩
   | select n => exact ⟨t, by simp only [Treemap.step, Spec.step64, C10_select t h n, Option.map_some], h, rfl⟩
+  | isFull => exact ⟨t, by simp only [Treemap.step, Spec.step64, C10_isFull t h], h, rfl⟩
 
 /-- every history from a well-formed value -/
 theorem C10_run (dbg : Bool) (ops : List Op64) : ∀ (t : Treemap), TWF t → (∀ op ∈ ops, op.Valid) →
